@@ -4,6 +4,7 @@ import (
 	"encoding/json"
 	"net/http"
 	"net/url"
+	"reflect"
 	"strconv"
 )
 
@@ -170,3 +171,27 @@ func AtoiRef(s string) (int64, bool) {
 // CodecMismatches counts decoder calls applied to bytes produced by a different
 // codec (symbolic engine only).
 func CodecMismatches() int { return 0 }
+
+func JUint(u uint64) []byte { return []byte(strconv.FormatUint(u, 10)) }
+
+// JObjOpt builds an object from (key string, value []byte, present bool) triples.
+func JObjOpt(kvp ...interface{}) []byte {
+	var kv []interface{}
+	for i := 0; i+2 < len(kvp); i += 3 {
+		if kvp[i+2].(bool) {
+			kv = append(kv, kvp[i], kvp[i+1])
+		}
+	}
+	return JObj(kv...)
+}
+
+// JEqual compares two JSON documents structurally (object key order is irrelevant;
+// numbers compare by their text).
+func JEqual(a, b []byte) bool {
+	va, oka := jparse(a)
+	vb, okb := jparse(b)
+	return oka && okb && reflect.DeepEqual(va, vb)
+}
+
+// JRaw is literal JSON text.
+func JRaw(text string) []byte { return []byte(text) }
